@@ -27,6 +27,7 @@ type cnode struct {
 	cases []int  // switch: case values
 	lit   []string
 	id    int
+	clob  bool // for-in: the body starts by assigning to the loop variable itself
 }
 
 var truthy = []string{"true", "1", `"a"`, "[0]", `{"a": 1}`, "0.5", `"true"`, "-1", `"x"`, "[nil]"}
@@ -97,7 +98,7 @@ func (g *cgen) node(d int, inLoop, inFunc bool) *cnode {
 	case 4:
 		return &cnode{kind: "cfor", k: g.r.Intn(4), id: g.id(), kids: []*cnode{g.seq(d-1, true, inFunc)}}
 	case 5:
-		return &cnode{kind: "forin", k: g.r.Intn(4), id: g.id(), kids: []*cnode{g.seq(d-1, true, inFunc)}}
+		return &cnode{kind: "forin", k: g.r.Intn(4), id: g.id(), clob: g.r.Intn(3) == 0, kids: []*cnode{g.seq(d-1, true, inFunc)}}
 	case 6:
 		return &cnode{kind: "while", k: g.r.Intn(4), id: g.id(), kids: []*cnode{g.seq(d-1, true, inFunc)}}
 	case 7:
@@ -185,6 +186,10 @@ func (n *cnode) render(b *strings.Builder, cur string) {
 			items[i] = fmt.Sprint(i)
 		}
 		fmt.Fprintf(b, "for %s in [%s] {\n", c, strings.Join(items, ", "))
+		if n.clob {
+			// assigning to the loop variable affects this iteration only: the next one gets its own element
+			fmt.Fprintf(b, "%s = %s + 0\n", c, c)
+		}
 		n.kids[0].render(b, c)
 		b.WriteString("}\n")
 	case "while":
@@ -313,6 +318,35 @@ func (n *cnode) eval(trace *[]string, idx int) (csig, int) {
 	return sigNone, 0
 }
 
+// break / continue act on the innermost enclosing loop OF THE SAME FUNCTION only: a callee's stray break or continue is an
+// error of the call and never touches the caller's loop; a returned value survives every kind of block on its way out
+var boundaryTemplates = []struct {
+	src     string
+	want    []string
+	wantErr string
+}{
+	{"for i = 0; i < 3; i++ {\nprobe(i)\nfunc() {\nif true {\nbreak\n}\n}()\nprobe(10 + i)\n}\nprobe(99)", []string{"(i 0)"}, "unexpected break"},
+	{"for i = 0; i < 3; i++ {\nprobe(i)\nfunc() {\nif true {\ncontinue\n}\n}()\nprobe(10 + i)\n}\nprobe(99)", []string{"(i 0)"}, "unexpected continue"},
+	{"func stop() {\nbreak\n}\nfor x in [1, 2, 3] {\nprobe(x)\nstop()\n}\nprobe(99)", []string{"(i 1)"}, "unexpected break"},
+	{"func skip(v) {\nif v == 2 {\ncontinue\n}\n}\nn = 0\nfor n < 3 {\nn++\nskip(n)\nprobe(n)\n}\nprobe(99)", []string{"(i 1)"}, "unexpected continue"},
+	{"func stop(a, b, c, d, e) {\nbreak\n}\nfor {\nprobe(1)\nstop(1, 2, 3, 4, 5)\nprobe(2)\nbreak\n}\nprobe(99)", []string{"(i 1)"}, "unexpected break"},
+	{"func stop(v...) {\nswitch 1 {\ncase 1:\nbreak\n}\n}\nfor i = 0; i < 2; i++ {\nfor j = 0; j < 2; j++ {\nprobe(10 * i + j)\nstop()\n}\n}\nprobe(99)", []string{"(i 0)"}, "unexpected break"},
+	{"r = 0\nfor i = 0; i < 3; i++ {\nr = func() {\nfor {\nbreak\n}\nreturn i\n}()\nprobe(r)\n}", []string{"(i 0)", "(i 1)", "(i 2)"}, ""},
+	{"probe(func() {\nmodule a {\nreturn 10\n}\nreturn 20\n}())", []string{"(i 10)"}, ""},
+	{"probe(func() {\nmodule a {\nif true {\nfor {\nreturn 1, 2\n}\n}\n}\n}())", []string{"(l (i 1) (i 2))"}, ""},
+	{"probe(func() {\nfor x in [1] {\nswitch x {\ncase 1:\nmodule b {\nreturn \"v\"\n}\n}\n}\n}())", []string{"(s 76)"}, ""},
+	{"func f() {\nmodule c {\nreturn 1, 2\n}\n}\na, b = f()\nprobe(a + b)", []string{"(i 3)"}, ""},
+	// every entry of a map is visited once - entries holding nil included
+	{"m = {\"a\": 1, \"b\": nil, \"c\": 3, \"d\": nil}\nn = 0\nfor k, v in m {\nn++\n}\nprobe(n)", []string{"(i 4)"}, ""},
+	{"m = {\"a\": nil, \"b\": nil}\nn = 0\nfor k in m {\nn++\n}\nprobe(n)", []string{"(i 2)"}, ""},
+	{"func find(m, want) {\nfor k, v in m {\nif k == want {\nreturn \"found\"\n}\n}\nreturn \"missing\"\n}\nprobe(find({\"a\": nil, \"b\": nil}, \"b\"))", []string{"(s 666f756e64)"}, ""},
+	{"m = {\"only\": nil}\nfor k, v in m {\nprobe(k)\nprobe(v)\n}", []string{"(s 6f6e6c79)", "nil"}, ""},
+	// assigning to a for-in variable does not leak into the next iteration
+	{"t = 0\nfor x in [5, 20, 3] {\nif x > 10 {\nx = 10\n}\nt += x\n}\nprobe(t)", []string{"(i 18)"}, ""},
+	{"r = []\nfor x in [1, 2, 3] {\nx++\nr += x\n}\nprobe(r)", []string{"(l (i 2) (i 3) (i 4))"}, ""},
+	{"r = []\nfor x in [1, 2, 3] {\nvar x = x * 10\nr += x\n}\nprobe(r)", []string{"(l (i 10) (i 20) (i 30))"}, ""},
+}
+
 func streamControl(o *Out, r *rand.Rand, n int, thorough bool) {
 	o.Sum.Rule = "structured control-flow programs (if/else-if/else over all truthiness classes, 4 loop forms with known bounds, switch, functions, " +
 		"break/continue/return guarded by the loop counter, nesting depth <= 4); expected probe trace computed by an independent reference evaluator in the harness; " +
@@ -337,24 +371,7 @@ func streamControl(o *Out, r *rand.Rand, n int, thorough bool) {
 	}
 	// break / continue act on the innermost enclosing loop OF THE SAME FUNCTION only: a callee's stray break or continue is
 	// an error of the call and never touches the caller's loop; a returned value survives every kind of block on its way out
-	stray := []struct {
-		src     string
-		want    []string
-		wantErr string
-	}{
-		{"for i = 0; i < 3; i++ {\nprobe(i)\nfunc() {\nif true {\nbreak\n}\n}()\nprobe(10 + i)\n}\nprobe(99)", []string{"(i 0)"}, "unexpected break"},
-		{"for i = 0; i < 3; i++ {\nprobe(i)\nfunc() {\nif true {\ncontinue\n}\n}()\nprobe(10 + i)\n}\nprobe(99)", []string{"(i 0)"}, "unexpected continue"},
-		{"func stop() {\nbreak\n}\nfor x in [1, 2, 3] {\nprobe(x)\nstop()\n}\nprobe(99)", []string{"(i 1)"}, "unexpected break"},
-		{"func skip(v) {\nif v == 2 {\ncontinue\n}\n}\nn = 0\nfor n < 3 {\nn++\nskip(n)\nprobe(n)\n}\nprobe(99)", []string{"(i 1)"}, "unexpected continue"},
-		{"func stop(a, b, c, d, e) {\nbreak\n}\nfor {\nprobe(1)\nstop(1, 2, 3, 4, 5)\nprobe(2)\nbreak\n}\nprobe(99)", []string{"(i 1)"}, "unexpected break"},
-		{"func stop(v...) {\nswitch 1 {\ncase 1:\nbreak\n}\n}\nfor i = 0; i < 2; i++ {\nfor j = 0; j < 2; j++ {\nprobe(10 * i + j)\nstop()\n}\n}\nprobe(99)", []string{"(i 0)"}, "unexpected break"},
-		{"r = 0\nfor i = 0; i < 3; i++ {\nr = func() {\nfor {\nbreak\n}\nreturn i\n}()\nprobe(r)\n}", []string{"(i 0)", "(i 1)", "(i 2)"}, ""},
-		{"probe(func() {\nmodule a {\nreturn 10\n}\nreturn 20\n}())", []string{"(i 10)"}, ""},
-		{"probe(func() {\nmodule a {\nif true {\nfor {\nreturn 1, 2\n}\n}\n}\n}())", []string{"(l (i 1) (i 2))"}, ""},
-		{"probe(func() {\nfor x in [1] {\nswitch x {\ncase 1:\nmodule b {\nreturn \"v\"\n}\n}\n}\n}())", []string{"(s 76)"}, ""},
-		{"func f() {\nmodule c {\nreturn 1, 2\n}\n}\na, b = f()\nprobe(a + b)", []string{"(i 3)"}, ""},
-	}
-	for _, c := range stray {
+	for _, c := range boundaryTemplates {
 		stmt, err := parser.ParseSrc(c.src)
 		if err != nil {
 			o.Fail(Failure{Oracle: "control-template-parses", Key: "control-template-parse", Input: c.src, Detail: err.Error()})
